@@ -12,9 +12,7 @@ import (
 	"math/rand"
 	"sort"
 
-	"src.elv.sh/pkg/eval"
 	"src.elv.sh/pkg/eval/vals"
-	"verif.local/harness/elv"
 	"verif.local/harness/lib"
 )
 
@@ -175,22 +173,33 @@ var strClasses []string // sorted
 // ---- number atoms: name -> Elvish code that builds it through the real constructors
 
 type numAtom struct {
-	name, code, cls string
+	name   string
+	code   string // Elvish code that denotes the number (checked as a "literal" case, judged by TLC)
+	cls    string
+	native any // the value itself, built in Go in its canonical representation
 }
 
+func bigI(s string) *big.Int { z, _ := new(big.Int).SetString(s, 10); return z }
+func bigR(a, b string) *big.Rat {
+	return new(big.Rat).SetFrac(bigI(a), bigI(b)) // SetFrac normalises; none of these is an integer
+}
+
+// The original of every number atom is built natively, so that it is what the table says whatever
+// the number parser does; what `num <text>` / arithmetic denotes is a separate, judged case.
 var numAtoms = []numAtom{
-	{"i:0", "num 0", "int"}, {"i:1", "num 1", "int"}, {"i:-1", "num -1", "int"}, {"i:42", "* 6 7", "int"},
-	{"i:maxint", "num 9223372036854775807", "int"}, {"i:minint", "num -9223372036854775808", "int"},
-	{"i:2^63", "+ 9223372036854775807 1", "bigint"}, {"i:-2^63-1", "- -9223372036854775808 1", "bigint"},
-	{"i:10^30", "num 1000000000000000000000000000000", "bigint"}, {"i:-10^30", "* -1 (num 1000000000000000000000000000000)", "bigint"},
-	{"r:1/3", "/ 1 3", "rat"}, {"r:-1/3", "num -1/3", "rat"}, {"r:3/2", "/ 6 4", "rat"},
-	{"r:big", "/ 100000000000000000000000000001 300000000000000000000000000000", "rat"},
-	{"f:+0.0", "num 0.0", "float"}, {"f:-0.0", "num -0.0", "float"}, {"f:1.0", "num 1.0", "float"}, {"f:-1.5", "num -1.5", "float"},
-	{"f:0.1", "num 0.1", "float"}, {"f:+Inf", "num +Inf", "float"}, {"f:-Inf", "num -Inf", "float"}, {"f:NaN", "num NaN", "float"},
-	{"f:1e21", "num 1e21", "float"}, {"f:1e-7", "num 1e-7", "float"}, {"f:max", "num 1.7976931348623157e308", "float"},
-	{"f:denorm", "num 5e-324", "float"}, {"f:2^63", "+ 9223372036854775807 1.0", "float"}, {"f:1e15", "num 1e15", "float"},
-	{"f:123456.789", "num 123456.789", "float"},
-	{"f:2^53", "num 9007199254740992.0", "float"}, {"f:12345678901", "* 12345678901 1.0", "float"},
+	{"i:0", "num 0", "int", 0}, {"i:1", "num 1", "int", 1}, {"i:-1", "num -1", "int", -1}, {"i:42", "* 6 7", "int", 42},
+	{"i:maxint", "num 9223372036854775807", "int", int(math.MaxInt64)}, {"i:minint", "num -9223372036854775808", "int", int(math.MinInt64)},
+	{"i:2^63", "+ 9223372036854775807 1", "bigint", bigI("9223372036854775808")}, {"i:-2^63-1", "- -9223372036854775808 1", "bigint", bigI("-9223372036854775809")},
+	{"i:10^30", "num 1000000000000000000000000000000", "bigint", bigI("1000000000000000000000000000000")},
+	{"i:-10^30", "* -1 (num 1000000000000000000000000000000)", "bigint", bigI("-1000000000000000000000000000000")},
+	{"r:1/3", "/ 1 3", "rat", big.NewRat(1, 3)}, {"r:-1/3", "num -1/3", "rat", big.NewRat(-1, 3)}, {"r:3/2", "/ 6 4", "rat", big.NewRat(3, 2)},
+	{"r:big", "/ 100000000000000000000000000001 300000000000000000000000000000", "rat", bigR("100000000000000000000000000001", "300000000000000000000000000000")},
+	{"f:+0.0", "num 0.0", "float", 0.0}, {"f:-0.0", "num -0.0", "float", math.Copysign(0, -1)}, {"f:1.0", "num 1.0", "float", 1.0}, {"f:-1.5", "num -1.5", "float", -1.5},
+	{"f:0.1", "num 0.1", "float", 0.1}, {"f:+Inf", "num +Inf", "float", math.Inf(1)}, {"f:-Inf", "num -Inf", "float", math.Inf(-1)}, {"f:NaN", "num NaN", "float", math.NaN()},
+	{"f:1e21", "num 1e21", "float", 1e21}, {"f:1e-7", "num 1e-7", "float", 1e-7}, {"f:max", "num 1.7976931348623157e308", "float", math.MaxFloat64},
+	{"f:denorm", "num 5e-324", "float", math.SmallestNonzeroFloat64}, {"f:2^63", "+ 9223372036854775807 1.0", "float", 9223372036854775808.0}, {"f:1e15", "num 1e15", "float", 1e15},
+	{"f:123456.789", "num 123456.789", "float", 123456.789},
+	{"f:2^53", "num 9007199254740992.0", "float", 9007199254740992.0}, {"f:12345678901", "* 12345678901 1.0", "float", 12345678901.0},
 }
 
 var numReal = map[string]any{} // name -> real value, built once by the real Evaler
@@ -234,8 +243,8 @@ func sameNum(a, b any) bool {
 	return false
 }
 
-// initAtoms builds the number atoms with the real Evaler and checks the tables (machinery).
-func initAtoms(ev *eval.Evaler) error {
+// initAtoms registers the number atoms and checks the tables (machinery).
+func initAtoms() error {
 	for c := range strReps {
 		strClasses = append(strClasses, c)
 	}
@@ -251,20 +260,16 @@ func initAtoms(ev *eval.Evaler) error {
 		}
 	}
 	for _, na := range numAtoms {
-		o := elv.Run(ev, "put ("+na.code+")")
-		if o.Err != nil || o.Panic != "" || len(o.Values) != 1 {
-			return lib.Infra("building number atom %s with %q: %v %s %v", na.name, na.code, o.Err, o.Panic, o.Values)
-		}
-		if goCls(o.Values[0]) != na.cls {
-			return lib.Infra("number atom %s built by %q is a %T, table says %s", na.name, na.code, o.Values[0], na.cls)
+		if goCls(na.native) != na.cls {
+			return lib.Infra("number atom %s: native value is a %T, table says %s", na.name, na.native, na.cls)
 		}
 		for n, r := range numReal {
-			if sameNum(r, o.Values[0]) {
+			if sameNum(r, na.native) {
 				return lib.Infra("number atoms %s and %s are the same real value", n, na.name)
 			}
 		}
-		numReal[na.name] = o.Values[0]
-		poolImage[math.Float64bits(vals.ConvertToFloat64(o.Values[0]))] = true
+		numReal[na.name] = na.native
+		poolImage[math.Float64bits(vals.ConvertToFloat64(na.native))] = true
 	}
 	return nil
 }
